@@ -141,6 +141,8 @@ def check_case(case):
     H.setup_path()
     from ofxtools.Client import OFXClient
 
+    if case.get("kind") == "list-mutation":
+        return check_list_mutation(case)
     desc = case["inst"]
     out = []
     with warnings.catch_warnings():
@@ -161,6 +163,55 @@ def check_case(case):
             text = data.decode("utf_8")
             body = text[text.index("<" + type(inst).__name__ + ">") :] if ("<" + type(inst).__name__ + ">") in text else text
             out += wire_violations(body, et, name)[:2]
+    return out
+
+
+def list_mutation_cases():
+    """ElementList classes: a member appended through the list interface after construction is not validated at that
+    moment; when the instance is written the member must be refused or written validly."""
+    from ofxtools import Types
+
+    out = []
+    for name, cls in sorted(M.universe().items()):
+        le = M.list_elem(cls)
+        if not le:
+            continue
+        conv = le[1].converter
+        bad = []
+        if isinstance(conv, Types.String) and conv.length is not None:
+            bad += ["x" * (conv.length + 1), "y" * (conv.length + 40)]
+        if isinstance(conv, Types.OneOf):
+            bad += ["ZZ_NOT_A_TOKEN", str(conv.valid[0]).lower() + "q"]
+        if isinstance(conv, Types.Integer):
+            bad += [10 ** ((conv.length or 6) + 1), "12x"]
+        for b in bad:
+            out.append({"kind": "list-mutation", "cls": name, "member": b})
+    return out
+
+
+def check_list_mutation(case):
+    from ofxtools import Types
+
+    cls = M.universe()[case["cls"]]
+    le = M.list_elem(cls)
+    out = []
+    with warnings.catch_warnings():
+        warnings.simplefilter("ignore")
+        try:
+            inst = M.build(M.minimal(cls, with_member=M.minimal_scalar(le[1])))
+        except Exception as e:
+            raise H.HarnessError(f"minimal {case['cls']}: {e!r}")
+        for how in ("append", "insert"):
+            x = type(inst).from_etree(inst.to_etree())
+            getattr(x, how)(*((case["member"],) if how == "append" else (0, case["member"])))
+            try:
+                et = x.to_etree()
+            except Exception:
+                continue  # refused: fine
+            tmp = []
+            check_tree(et, cls, tmp)
+            for k, d in tmp:
+                out.append((f"{k}/member-added-after-construction", f"{case['cls']}.{how}({case['member']!r}): {d}"))
     return out
 
 
@@ -224,6 +275,11 @@ def _worker(job):
 
 
 def run(ctx):
+    H.setup_path()
+    for c in list_mutation_cases():
+        ctx.case(c, nontrivial=True, labels=["list member added after construction"])
+        for k, d in check_case(c):
+            ctx.fail(k, c, d)
     names = sorted(M.universe())
     n = ctx.scale(10, 150)
     ctx.pmap(_worker, [(names[i::48], n, ctx.sub_seed("cls")) for i in range(48)])
